@@ -258,7 +258,7 @@ func parseAtom(lex *lexer.PeekingLexer) (Expression, error) {
 			NodeMeta: nodeMetaFromPosition(tok.Pos),
 		}
 		if err := i.Value.UnmarshalText([]byte(tok.Value)); err != nil {
-			return nil, err
+			return nil, &lexer.Error{Pos: tok.Pos, Msg: fmt.Sprintf("invalid integer literal '%s'", tok.Value)}
 		}
 		return &i, nil
 	case TokenTypeFloat:
